@@ -35,6 +35,53 @@ pub fn validator_root(nodes: &[(MerkleHash, usize)]) -> MerkleHash {
     *ret.hash()
 }
 
+// Independent statement of the aggregation ("published construction"), written against blake3 directly:
+// leaves (hash,len); a parent is cut after the child at index i when (children so far >= 2 and word3 % 4 == 0)
+// or children so far >= 8 or it is the last; parent hash = keyed_blake3(INTERNAL key, lines "{hex} : {len}\n");
+// repeat until one node is left.  The first length seen for a hash wins (hash-consing), zero hash has length 0.
+pub fn indep_root(nodes: &[(MerkleHash, usize)]) -> MerkleHash {
+    const KEY: [u8; 32] = [
+        1, 126, 197, 199, 165, 71, 41, 150, 253, 148, 102, 102, 180, 138, 2, 230, 93, 221, 83, 111, 55, 199, 109, 210, 248, 99, 82, 230, 74,
+        83, 113, 63,
+    ];
+    if nodes.is_empty() {
+        return MerkleHash::default();
+    }
+    let mut seen: std::collections::HashMap<[u8; 32], usize> = std::collections::HashMap::new();
+    seen.insert([0u8; 32], 0);
+    let mut level: Vec<([u8; 32], usize)> = nodes
+        .iter()
+        .map(|(h, l)| {
+            let k: [u8; 32] = h.as_bytes().try_into().unwrap();
+            let l = *seen.entry(k).or_insert(*l);
+            (k, l)
+        })
+        .collect();
+    while level.len() > 1 {
+        let mut next = vec![];
+        let mut start = 0usize;
+        for i in 0..level.len() {
+            let w3 = u64::from_le_bytes(level[i].0[24..32].try_into().unwrap());
+            let so_far = i - start;
+            if (so_far >= 2 && w3 % 4 == 0) || so_far >= 8 || i + 1 == level.len() {
+                let mut text = String::new();
+                let mut total = 0usize;
+                for (h, l) in &level[start..=i] {
+                    let w: Vec<u64> = (0..4).map(|j| u64::from_le_bytes(h[8 * j..8 * j + 8].try_into().unwrap())).collect();
+                    text.push_str(&format!("{:016x}{:016x}{:016x}{:016x} : {}\n", w[0], w[1], w[2], w[3], l));
+                    total = total.wrapping_add(*l);
+                }
+                let ph: [u8; 32] = *blake3::keyed_hash(&KEY, text.as_bytes()).as_bytes();
+                let l = *seen.entry(ph).or_insert(total);
+                next.push((ph, l));
+                start = i + 1;
+            }
+        }
+        level = next;
+    }
+    DataHash::from_slice(&level[0].0).unwrap()
+}
+
 struct Scripted {
     script: Vec<Option<usize>>,
     pos: usize,
@@ -77,6 +124,7 @@ pub fn run(toks: &[&str]) -> Lines {
             let v = validator_root(&nodes);
             out.push(("obs", format!("cas={} val={}", a.hex(), v.hex())));
             ok(&mut out, a == v, "uploader-hash-differs-from-validator-path");
+            ok(&mut out, a == indep_root(&nodes), "aggregate-differs-from-independent-construction");
         },
         "file" => {
             let salt: [u8; 32] = unhex(toks[1]).try_into().unwrap();
